@@ -1147,6 +1147,16 @@ def run(ctx: core.Ctx):
         if i % 500 == 0:
             ctx.sample({"construction": c["hist"], "policy": c["pol"], "initializers": o.get("inits"), "state_dict": o.get("state_dict")}, limit=6)
     ctx.set("model_impl_mismatches", nmis)
+    # hand-written traces for a combination the menus do not derive: build_function bodies with control-flow subgraphs whose
+    # literals are used only inside the nested bodies, called as a node and inlined
+    from . import builder_extra
+
+    for bc in builder_extra.cases():
+        ctx.add("evaluations")
+        ctx.add("hand_written_builder_traces")
+        for msg in builder_extra.run_case(bc):
+            ctx.report({"kind": "builder_extra", "case": bc, "failure": msg}, f"hand-written builder trace {bc['name']}: {msg}")
+            break
     ctx.set("distinct_nontrivial", len(nontriv))
     ctx.set("exhaustive", False)
     ctx.set("rule", "traces = 'done' states of Builder.tla: exhaustive over a small menu (cfg) plus random derivations (-simulate) over the full menu "
